@@ -1,7 +1,69 @@
-//! op "typing" (stub: answers bad-op until the engine is built)
+//! op "typing": what the real compiler says about types.
+//!   {"op":"typing","f":"sigs","names":[..]}            -> {"sigs": {name: ["<T>(Sequence<T>, int?)->T", "dyn:..", ..]}}
+//!        signatures of the overloads the standard root scope exports under each candidate name
+//!        (names that are not functions are left out)
+//!   {"op":"typing","f":"types","src":..,"names":[..]}  -> {"compile": "ok" | {class,msg}, "types": {name: "<static type>"}}
+//!        static type the compiler assigned to each top-level name of the program
+//!   {"op":"typing","f":"run", ..run request.., "types":[..]} -> the answer of op "run" plus "types"
+//!        (one request = accept/reject, the run under the requested limits, and the static types)
 
-use serde_json::{json, Value};
+use crate::run::{compile, op_run, R, T, W};
+use serde_json::{json, Map, Value};
+use xray::builtin::verif_hooks::typing as hooks;
+use xray::root_compilation_scope::RootCompilationScope;
+use xray::std_compilation_scope;
 
-pub fn op(_req: &Value) -> Value {
-    json!({"bad-op": true})
+fn names_of(req: &Value, key: &str) -> Vec<String> {
+    req.get(key)
+        .and_then(|x| x.as_array())
+        .map(|a| {
+            a.iter()
+                .filter_map(|n| n.as_str().map(|s| s.to_string()))
+                .collect()
+        })
+        .unwrap_or_default()
+}
+
+fn types_of(comp: &RootCompilationScope<W, R, T>, names: &[String]) -> Value {
+    let mut m = Map::new();
+    for n in names {
+        m.insert(n.clone(), json!(hooks::static_type(comp, n)));
+    }
+    Value::Object(m)
+}
+
+pub fn op(req: &Value) -> Value {
+    match req["f"].as_str().unwrap_or("") {
+        "sigs" => {
+            let comp: RootCompilationScope<W, R, T> = std_compilation_scope();
+            let mut m = Map::new();
+            for n in names_of(req, "names") {
+                let s = hooks::signatures(&comp, &n);
+                if !s.is_empty() {
+                    m.insert(n, json!(s));
+                }
+            }
+            json!({ "sigs": m })
+        }
+        "types" => {
+            let src = req["src"].as_str().unwrap_or("");
+            match compile(src) {
+                Ok(comp) => json!({"compile": "ok", "types": types_of(&comp, &names_of(req, "names"))}),
+                Err(e) => json!({ "compile": e }),
+            }
+        }
+        "run" => {
+            let mut resp = op_run(req);
+            if resp.get("compile") == Some(&json!("ok")) {
+                if let Ok(comp) = compile(req["src"].as_str().unwrap_or("")) {
+                    let t = types_of(&comp, &names_of(req, "types"));
+                    if let Some(o) = resp.as_object_mut() {
+                        o.insert("types".into(), t);
+                    }
+                }
+            }
+            resp
+        }
+        _ => json!({"bad-op": true}),
+    }
 }
